@@ -21,6 +21,9 @@ type ABranch struct {
 	// is given before deciding (only generated where results are not
 	// compared with the step model).
 	GuardScribbles bool `json:"guardScribbles,omitempty"`
+	// GuardInPlace: the native guard applies its program to the map it is
+	// given (deleting and overwriting keys there) and returns that map.
+	GuardInPlace bool `json:"guardInPlace,omitempty"`
 	Target      string      `json:"target,omitempty"`
 }
 
@@ -79,6 +82,9 @@ func (a *ASpec) Build() *core.Spec {
 						mode := NativeCopy
 						if ab.GuardScribbles {
 							mode = NativeScribble
+						}
+						if ab.GuardInPlace {
+							mode = NativeInPlace
 						}
 						b.Guard = ab.Guard.Native(mode)
 					} else {
